@@ -190,7 +190,7 @@ func init() {
 	vfXModels["sys"] = &vfXModel{Name: "sys", NumOps: len(vfSysOps), OpName: func(i int) string { return vfSysOps[i].Name },
 		Exec: vfSysExec, MaxDepth: func(th bool) int {
 			if th {
-				return 5
+				return 8
 			}
 			return 4
 		}}
